@@ -10,9 +10,8 @@ theorem arity : allB arityOk Gen.Externs.decls = true := by decide +kernel
 /-- every parameter has the same value class on the reference target -/
 theorem abi : allB abiOk Gen.Externs.decls = true := by decide +kernel
 
-/-- (symbol, parameter position) of the parameters that are not the same type by name -/
-def deviations : List (Nat × Nat) :=
-  Gen.Externs.decls.foldr (fun r acc => (nameDiffs r).map (fun i => (r.sym, i)) ++ acc) []
+/-- every parameter is the same type by name -/
+theorem names : allB (fun r => (nameDiffs r).isEmpty) Gen.Externs.decls = true := by decide +kernel
 
 /-- return types that are not the same type by name / not the same class (observation, outside the property) -/
 def retDeviations : List Nat := (Gen.Externs.decls.filter (fun r => !(retNameOk r))).map (·.sym)
